@@ -1,0 +1,53 @@
+//! Verification hooks for the RIB unit's metrics (feature `verif-hooks`,
+//! add-only). A child module of `rib_unit::unit` (one cfg'd `#[path] pub mod`
+//! line at the end of `unit.rs`) because the runner's fields are private to it.
+//!
+//! Nothing here has behaviour of its own: `mk_runner_with_metrics` builds the
+//! runner of `verif_hooks_c01::mk_runner` but wires the metrics the way
+//! `RibUnitRunner::new` does (`RibUnitMetrics::new(&gate, stats)` inside a
+//! `RibUnitStatusReporter::new(name, metrics)`), and hands out the metrics
+//! object as the `metrics::Source` the manager would register, plus the
+//! statistics object the runner holds.
+
+use std::sync::Arc;
+
+use super::super::metrics::RibUnitMetrics;
+use super::super::statistics::RibMergeUpdateStatistics;
+use super::super::status_reporter::RibUnitStatusReporter;
+use super::RibUnitRunner;
+use crate::comms::GateAgent;
+use crate::metrics::Source;
+
+/// `verif_hooks_c01::mk_runner` with the metrics wiring of
+/// `RibUnitRunner::new` (`unit.rs:285-293`). Returns the runner, its gate
+/// agent (keep it alive) and the metrics source that `new` registers with
+/// the component.
+pub fn mk_runner_with_metrics(
+    unit_name: &str,
+) -> (RibUnitRunner, GateAgent, Arc<dyn Source>) {
+    let (mut runner, agent) = super::verif_hooks_c01::mk_runner();
+    let metrics = Arc::new(RibUnitMetrics::new(
+        &runner.gate,
+        runner.rib_merge_update_stats.clone(),
+    ));
+    runner.status_reporter =
+        Arc::new(RibUnitStatusReporter::new(unit_name, metrics.clone()));
+    (runner, agent, metrics)
+}
+
+/// The statistics object the runner holds (`rib_merge_update_stats`).
+pub fn merge_update_stats(
+    runner: &RibUnitRunner,
+) -> Arc<RibMergeUpdateStatistics> {
+    runner.rib_merge_update_stats.clone()
+}
+
+/// `RibMergeUpdateStatistics::add`, unchanged (the module is private).
+pub fn merge_update_stats_add(
+    stats: &RibMergeUpdateStatistics,
+    microseconds: u64,
+    hashset_size: usize,
+    withdraw: bool,
+) {
+    stats.add(microseconds, hashset_size, withdraw)
+}
